@@ -25,11 +25,12 @@ const (
 	rkStartupCb
 	rkRestartCb
 	rkListen
-	rkHandover // the old listener's File() fails while the new instance takes over
-	rkPanic    // a directive's setup panics
+	rkHandover   // the old listener's File() fails while the new instance takes over
+	rkPanic      // a directive's setup panics
+	rkShutdownCb // a valid reload; a shutdown callback of the replaced instance returns an error (lifecycle rig only)
 )
 
-var rkNames = []string{"ok", "parse", "setup", "startupcb", "restartcb", "listen", "handover", "setup-panic"}
+var rkNames = []string{"ok", "parse", "setup", "startupcb", "restartcb", "listen", "handover", "setup-panic", "shutdowncb-error"}
 
 type verSpec struct {
 	label string
